@@ -11,6 +11,7 @@ import XotModel.Driver.IdMap
 import XotModel.Driver.Axes
 import XotModel.Driver.Output
 import XotModel.Driver.Scope
+import XotModel.Driver.Ffixed
 
 open XotModel.Driver
 
@@ -32,6 +33,7 @@ structure MState where
 
 def dispatchAll (st : MState) (line : String) : MState × String :=
   match words line with
+  | "forest" :: "fixed" :: rest => (match handleFfixed st.forest rest with | some (fs, resp) => ({ st with forest := fs }, resp) | none => (st, "bad-request"))
   | "forest" :: rest =>
     (match handleForest st.forest rest with
      | some (fs, resp) => ({ st with forest := fs }, resp)
